@@ -1,5 +1,7 @@
 import json
 from vcheck import *
+import c29_c30_anchors as A
+from c28_locks import TranslateError as T_ERR
 
 META = {
     "category": "proof",
@@ -11,8 +13,8 @@ META = {
             'cancelled task publishing or not, stale tasks), at quiescence the last published set of every file the analysis holds is the '
             'diagnosis of its current text and a removed file ends with an empty (or no) published set -- by the invariant "stale => the '
             'running handler or an uncancelled task of that file is pending". token_removal_race_reachable shows that the unconditional '
-            'remove really deletes a newer task\'s token in a reachable state; the convergence theorem shows it is harmless. Generated '
-            'histories (edits with gaps inside / around / beyond the debounce interval, close, watched-file delete and change, a reload) '
+            'remove really deletes a newer task\'s token in a reachable state; the convergence theorem shows it is harmless. The order the model depends on is re-read from the source on every run (every clear_push_file_diagnostics comes after the removal and nothing is removed after it; the task publishes under analysis.read()) and re-proved as obligations (C30/Today.v); clear_first_refuted shows what goes wrong otherwise. Generated '
+            'histories (edits with gaps inside / around / beyond the debounce interval, close, watched-file delete and change, a reload; closing an unsaved 2000-line buffer while its calibrated diagnosis is in flight) '
             'are run against the real in-process server in push mode; at quiescence the last publishDiagnostics per uri is compared with a '
             'fresh diagnosis (textDocument/diagnostic pull) of the current content.',
     "note": 'Trusted: Coq kernel; the hand model of file_diagnostic.rs and of the handlers (validated by the quiescent correspondence on sampled '
@@ -22,7 +24,9 @@ META = {
 }
 
 THEOREMS = [("published_converge", "theorem"), ("stale_has_pending_task", "theorem"), ("token_removal_race_reachable", "refutation"),
-            ("converge_example", "example")]
+            ("clear_first_refuted", "refutation"), ("converge_example", "example")]
+TODAY_THEOREMS = [("today_clear_after_remove", "table"), ("today_publish_under_read_lock", "table"), ("today_published_converge", "theorem")]
+FACT_TEXT = {'clear_after_remove': 'a clear_push_file_diagnostics call is no longer the last thing after the removal from the analysis (a diagnosis in flight publishes after the clear: clear_first_refuted)', 'publish_under_read_lock': 'the diagnostic task no longer publishes while holding analysis.read()', 'token_removed_after_publish': 'the diagnostic task no longer removes its token after publishing'}
 SIGS = {"stale-published", "never-published", "removed-not-cleared"}
 TRUSTED = [
     "Coq 8.16.1 kernel (coqc); vm_compute only in the reachability witness, the Example and the correspondence evaluation",
@@ -33,6 +37,7 @@ TRUSTED = [
     "modelling assumptions: a publish happens while analysis.read() is held, so it is atomic with reading the text and ordered with the "
     "writes (C28 lock model); the diagnosis of a file depends on that file's text only; timers eventually fire (quiescence is reached); "
     "document notifications are inline (C27)",
+    "lexical anchors lib/c29_c30_anchors.py -> Gen/C30_Order.v (statement order clear-after-remove at every call site; publish under the read lock), re-proved in C30/Today.v",
     "oracle: `textDocument/diagnostic` (pull) answered by the same server at quiescence = a fresh diagnosis of the current content; "
     "hook (cfg-gated): verif_serve, verif/docState",
 ]
@@ -56,7 +61,7 @@ def run(ck, binpath, mode, n):
     if rc != 0:
         ck.tie_broken("harness c30 %s failed (rc=%s)" % (mode, rc), (err or "")[-2000:])
         return []
-    return [json.loads(l) for l in out.splitlines() if l.strip().startswith("{")]
+    return [json.loads(l) for l in jlines(out) if l.strip().startswith("{")]
 
 
 def main(argv):
@@ -68,14 +73,33 @@ def main(argv):
             c = v.get("case", {})
             rc, out, err = ck.run_bin(bins["c30"], ["one", "--case-json", json.dumps({"docs": c.get("docs", []), "hist": c.get("hist", [])}),
                                                     "--dir", ck.work, "--repeat", 5], timeout=900)
-            for l in out.splitlines():
+            for l in jlines(out):
                 if l.strip().startswith("{") and '"signature"' in l:
                     vv = json.loads(l)
                     ck.violation(vv["signature"], vv["what"], vv["case"])
         ck.finish(trusted_base=TRUSTED)
+    # facts of today's source that the model depends on (regenerated on every run)
+    facts = None
+    try:
+        facts = A.c30_facts(REPO)
+        A.write_c30(facts, os.path.join(COQ, "theories", "Gen", "C30_Order.v"), REPO)
+        ck.cov["distribution"]["source_anchors"] = {k: v for k, v in facts.items() if isinstance(v, bool)}
+        if "sites" in facts:
+            ck.cov["distribution"]["clear_sites"] = ["%s:%d %s" % (q, l, "ok" if o else "BEFORE-REMOVAL") for q, l, o in facts["sites"]]
+        for k, v in facts.items():
+            if isinstance(v, bool):
+                ck.cov["obligations"] += 1
+                if v:
+                    ck.cov["discharged"] += 1
+                else:
+                    ck.proof_broken("today's source breaks an assumption of the C30 model: " + FACT_TEXT.get(k, k), json.dumps(facts, default=str)[:2000])
+    except (A.AnchorError, T_ERR) as ex:
+        ck.tie_broken("source anchors of the C30 model not found: %s" % ex)
     ok = ck.coq_make(["theories/C30/Props.vo", "theories/C30/Corr.vo"])
     if ok:
         ck.coq_gates(["C30"], THEOREMS, "EV.C30.Props")
+    if ok and facts is not None and ck.coq_make(["theories/C30/Today.vo"]):
+        ck.coq_gates([], TODAY_THEOREMS, "EV.C30.Today")
     if bins:
         if ok or os.path.exists(os.path.join(COQ, "theories/C30/Corr.vo")):
             cases = [c for c in run(ck, bins["c30"], "corr", ck.scale(15, 200)) if "obs" in c]
@@ -98,7 +122,7 @@ def main(argv):
                 ck.violation(v["signature"], v["what"], v["case"])
     ck.finish(
         trusted_base=TRUSTED,
-        rule="histories over 1-3 fresh documents (on disk / virtual): 3-14 operations (open, change with texts whose diagnostics differ, close, "
+        rule="(a) an unsaved 2000-line buffer is opened and closed interval + D*f (f in 1/4..3/4, D = diagnosis time calibrated at start-up) after the open was applied, i.e. while its diagnosis is in flight; (b) histories over 1-3 fresh documents (on disk / virtual): 3-14 operations (open, change with texts whose diagnostics differ, close, "
              "watched-file delete, watched-file change, sometimes a reload request) separated by gaps of 0, 1-20, interval/2..interval, "
              "interval-10..interval+25, interval..2*interval ms (debounce interval 120 ms, set through .emmyrc.json); quiescence = 3 intervals + "
              "300 ms of silence; non-trivial = at least two edits; distinct by (docs, history)",
